@@ -46,7 +46,7 @@ func runFaulted(w *wl.Workload, k wl.Config, sink *faultio.Sink, golden []byte) 
 	}
 	check := func(i int, name string, e error) error {
 		if sink.Fired && sink.FiredCall == i && e == nil {
-			return pk.Failf("swallowed", "sink write #%d failed (short=%v permanent=%v) during %s (call %d), which returned nil", sink.FailAt, sink.Short, sink.Permanent, name, i)
+			return pk.Failf("swallowed", "sink write #%d failed (short=%v short-count-with-nil-error=%v permanent=%v) during %s (call %d), which returned nil", sink.FailAt, sink.Short, sink.Silent, sink.Permanent, name, i)
 		}
 		if sink.Fired && sink.FiredCall == i {
 			firedIn = name
@@ -89,9 +89,12 @@ func checkC14(c WKCase, st *stats.Collector) error {
 	evals := 0
 	where := map[string]int64{}
 	for at := 0; at < n; at++ {
-		for _, short := range []bool{false, true} {
+		// short = 2: the short count comes with a nil error - the destination simply stops taking bytes. The
+		// statement names "a short write" next to "an error" as the ways a destination fails.
+		for _, shortMode := range []int{0, 1, 2} {
+			short := shortMode > 0
 			for _, perm := range []bool{false, true} {
-				sink := &faultio.Sink{FailAt: at, Short: short, Permanent: perm}
+				sink := &faultio.Sink{FailAt: at, Short: short, Silent: shortMode == 2, Permanent: perm}
 				in, err := runFaulted(w, k, sink, golden)
 				evals++
 				if err != nil {
